@@ -161,3 +161,11 @@ func ForallRef[T any](body func(p *T) bool) bool { panic("verifspec: proof-only 
 // ForallOldPtr quantifies over the objects that were allocated in the pre-state of the enclosing
 // contract (objects created since are not constrained). Proof-only.
 func ForallOldPtr[T any](body func(p *T) bool) bool { panic("verifspec: proof-only quantifier") }
+
+// SameFunc reports whether two function values are the same function (Go only allows comparing
+// function values with nil). Proof-only identity of closures.
+func SameFunc(a, b any) bool { panic("verifspec: proof-only") }
+
+// SameMap reports whether two map values are the same map object (Go only allows comparing maps
+// with nil). Proof-only.
+func SameMap(a, b any) bool { panic("verifspec: proof-only") }
